@@ -95,10 +95,11 @@ def judge_abort(info, site, clause='run_raised'):
     if info.five:
         ctx.outcome = 'sut_abort'
         return True
-    if isinstance(info.raised, TypeError) and 'complex' in str(info.raised) and overshoot(info.w):
+    if isinstance(info.raised, (TypeError, ArithmeticError, ValueError)) and overshoot(info.w):
         # observation O5 (DESIGN.md 8): gen_number rounds onto the precision grid and may exceed a bound by less than half
         # the precision (legal under C08); polynomial mutation of such a parent can take the root of a negative number
-        # and the run dies in clip().  No listed property promises a result for a parent outside the strict box.
+        # and the run dies in clip() (TypeError: complex); SBX of such a parent can hit pow(0.0, negative)
+        # (ZeroDivisionError).  No listed property promises a result for a parent outside the strict box.
         ctx.outcome = 'sut_abort'
         ctx.probe('o5_precision_overshoot_crash')
         return True
